@@ -54,7 +54,7 @@ PROPS = {
                 quick=[R(checks=110, shards=8, timeout=900)],
                 thorough=[R(checks=500, shards=16, timeout=2400)]),
     "C07": dict(pkg="c07", level="exploration",
-                quick=[R(checks=1000)],
+                quick=[R(checks=550, shards=2)],
                 thorough=[R(checks=2500, shards=16, timeout=2400)]),
     "C08": dict(pkg="c08", level="exploration",
                 quick=[R(checks=1500)],
